@@ -216,6 +216,50 @@ def analyse(src: Source) -> List[Report]:
                     rep.ob("R4.2-velocity-change-needs-acceptance", guarded, Loc(ref.file, c.lineno, f"{h.name}: {ref.qual}"), c,
                            "a velocity-changing step of a thinning handler is reachable without passing the accepting edge of a "
                            "confirmation test: an unconfirmed (or unconditioned) event changes velocities")
+        # R4.1d the true rate of a factor sums the derivative of every pair: the accumulation is unconditional in its loop
+        for ref in facts.out_closure:
+            for loop in [n for n in ast.walk(ref.fn) if isinstance(n, ast.For)]:
+                tnames = {a.targets[0].id for a in loop.body if isinstance(a, ast.Assign) and isinstance(a.targets[0], ast.Name)
+                          and isinstance(a.value, ast.Call) and norm(a.value.func) == "self._potential.derivative"}
+                accs = [a for a in ast.walk(loop) if isinstance(a, ast.AugAssign) and isinstance(a.op, ast.Add) and isinstance(a.target, ast.Name)
+                        and (norm(a.value) in tnames or (isinstance(a.value, ast.Call) and norm(a.value.func) == "self._potential.derivative"))]
+                for acc in accs:
+                    top = any(x is acc for x in loop.body) or any(isinstance(st, ast.For) and any(x is acc for x in st.body) for st in loop.body)
+                    inner = loop if any(x is acc for x in loop.body) else next((st for st in loop.body if isinstance(st, ast.For) and any(x is acc for x in st.body)), loop)
+                    idx = [k for k, x in enumerate(inner.body) if x is acc]
+                    skips = [x for st in inner.body[:idx[0] if idx else 0] for x in ast.walk(st) if isinstance(x, (ast.Continue, ast.Break))]
+                    rep.ob("R4.1-true-rate-sums-all-pairs", top and not skips, Loc(ref.file, acc.lineno, f"{h.name}: {ref.qual}"), acc,
+                           "the true event rate of a factor is the sum of the pair derivatives over all targets; here the accumulation is "
+                           "conditional or can be skipped (continue / break before it): the confirmation probability is then not "
+                           "true rate / bounding rate")
+        # R4.5 the rate an event is proposed with is refreshed on every path of the proposal
+        if proposal_attrs:
+            from ..flow import FlowWalker
+
+            def events(node, ctx, _attrs=proposal_attrs):
+                if isinstance(node, ast.Assign):
+                    return [("SET", self_attr(t)) for t in node.targets if self_attr(t) in _attrs]
+                return []
+
+            def transfer(state, ev, ctx):
+                return frozenset(set(state) | {ev[1]})
+
+            def inline(call, ctx, _h=h):
+                f = call.func
+                if isinstance(f, ast.Attribute) and isinstance(f.value, ast.Name) and f.value.id == "self":
+                    return implementations(prog, _h, f.attr)
+                return []
+            for ref in facts.send_event_time:
+                w = FlowWalker(events, transfer, inline)
+                w.run(ref, frozenset())
+                for st, node, kind in w.exits:
+                    if kind == "raise":
+                        continue
+                    missing = sorted(proposal_attrs - set(st))
+                    rep.ob("R4.5-proposal-rate-refreshed", not missing, Loc(ref.file, getattr(node, "lineno", ref.fn.lineno), f"{h.name}: {ref.qual}"),
+                           f"{h.name}: every path of send_event_time sets {sorted(proposal_attrs)}",
+                           f"on some path the candidate time is returned without (re)setting {missing}: the confirmation then uses the "
+                           f"rate left over from an earlier event of this handler")
         # helpers that evaluate the true rate at a separation they receive as a parameter
         sep_helpers: Dict[str, int] = {}
         for name, (owner, m) in prog.all_methods(h).items():
@@ -256,6 +300,40 @@ def analyse(src: Source) -> List[Report]:
                     rep.ob("R4.1-same-point", same_v and (sep_t == sep_b or cellish), Loc(ref.file, t.lineno, f"{h.name}: {ref.qual}"),
                            f"true({norm(t.args[0])}, {sep_t}) vs bound({norm(b.args[0])}, {sep_b})",
                            "true and bounding rate must be evaluated for the same velocity and the same separation")
+    # R4.4 shipped configurations keep the claimed ratio between the 1/r bound and the merged-image Coulomb potential
+    from ..inifront import load_all, Obj
+    bcls = prog.class_named("InversePowerCoulombBoundingPotential")
+    tcls = prog.class_named("MergedImageCoulombPotential")
+
+    def default_of(ci, pname):
+        r = prog.resolve_method(ci, "__init__")
+        if r:
+            a = r[1].args
+            pos = a.posonlyargs + a.args
+            defs = [None] * (len(pos) - len(a.defaults)) + list(a.defaults)
+            for p_, d_ in zip(pos, defs):
+                if p_.arg == pname and isinstance(d_, ast.Constant):
+                    return float(d_.value)
+        return None
+    bdef, tdef = default_of(bcls, "prefactor"), default_of(tcls, "prefactor")
+    if bdef is None or tdef is None:
+        raise AnalysisError("default prefactors of the Coulomb bound / merged-image potential not found")
+    claimed = bdef / tdef
+    n_pairs = 0
+    for cfg in load_all(prog):
+        for o in cfg.walk():
+            pot, bnd = o.get("potential"), o.get("bounding_potential")
+            if isinstance(pot, Obj) and isinstance(bnd, Obj) and prog.is_subclass(pot.cls, tcls.name) and prog.is_subclass(bnd.cls, bcls.name):
+                n_pairs += 1
+                k, b = pot.get("prefactor"), bnd.get("prefactor")
+                ok = isinstance(k, float) and isinstance(b, float) and k != 0 and abs(b / k) >= claimed * (1 - 1e-12)
+                rep.ob("R4.4-configured-bound-ratio", ok, Loc(cfg.file, 0, f"[{o.section}]"),
+                       f"bound prefactor {b} / true prefactor {k} = {b / k if k else None} >= {claimed}",
+                       f"the scaled nearest-image 1/r potential bounds the periodic Coulomb potential only if its prefactor is at least "
+                       f"{claimed} times the true prefactor (the ratio the code itself claims through its defaults); this section uses "
+                       f"{b / k if k else None}")
+    rep.unit("configured_coulomb_bound_pairs", n_pairs)
+    rep.expect_min("R4.4-configured-bound-ratio", 10)
     rep.unit("thinning_handlers", thinning_handlers)
     rep.unit("confirmation_sites", n_sites)
     rep.expect_min("R4.1-has-confirmation", 8)
@@ -309,6 +387,14 @@ MUTANTS = [
     Edit("root mode summed: no confirmation", EH + "root_unit_active_two_composite_object_summed_bounding_potential_event_handler.py",
          "            if random.uniform(0, bounding_event_rate) < factor_derivative:\n", "            if True:\n", "R4"),
 ]
+MUTANTS.append(Edit("summed bounding: downhill pairs skipped before the true derivative", EH + "two_composite_object_summed_bounding_potential_event_handler.py",
+                    "            pairwise_derivative = self._potential.derivative(",
+                    "            if bounding_event_rate <= 0.0:\n                continue\n            pairwise_derivative = self._potential.derivative(", "R4.1"))
+MUTANTS.append(Edit("water config: bound prefactor too small", "jellyfysh/config_files/2018_JCP_149_064113/water/coulomb_power_bounded_lj_inverted.ini",
+                    "prefactor = 531.2", "prefactor = 513.2", "R4.4"))
+MUTANTS.append(Edit("piecewise constant: stale rate kept beyond the interval", EH + "abstracts/event_handler_with_bounding_potential.py",
+                    "        else:\n            self._bounding_event_rate = None\n            return self._max_displacement",
+                    "        else:\n            return self._max_displacement", "R4.5"))
 TWINS = [
     Edit("random() * B form", EB, "if random.uniform(0, self._bounding_event_rate) < real_derivative:",
          "if random.random() * self._bounding_event_rate < real_derivative:"),
